@@ -38,7 +38,8 @@ EXTRA_SIGNALS = EXIT_STATUSES + ["SIGRT+1", "SIGRT+5", "SIGRT+12", "SIGRT+29", "
 # ------------------------------------------------------------------ scenarios
 def sc(kind, how="SIGKILL", n_jobs=2, victims=(0,), managed=False, n_tasks=8, sleep=0.05, gen=False, big=0,
        watchdog=60, **extra):
-    """extra: n_tasks1 (tasks of the fault call), sigchld, pre_dispatch, probe (lock-order probe)"""
+    """extra: n_tasks1 (tasks of the fault call), sigchld, pre_dispatch, probe (lock-order probe),
+    nested (the victim has started loky workers of its own before it dies)"""
     if kind == "mid_send":
         watchdog = 12          # the known finding F27 hangs: do not wait a minute for it
     if kind == "stubborn":
@@ -144,6 +145,12 @@ def quick_scenarios(rng):
         # lock-order probe on ordinary instants: no completion callback may run in a thread holding shutdown_lock
         sc("mid_task", "SIGKILL", 2, [1], probe=True),
         sc("idle_settled", "SIGKILL", 2, [0], managed=True, probe=True),
+        # the victim has started NESTED loky workers of its own (a nested Parallel in the task) before it dies: the orphans
+        # must not keep the dead worker's sentinel open
+        sc("mid_task", "SIGKILL", 2, [1], nested=True, sleep=0.2),
+        sc("mid_task", "exit:0", 3, [0], managed=True, nested=True, sleep=0.2),
+        sc("idle_settled", "SIGKILL", 2, [0], managed=True, nested=True),
+        sc("idle_settled", "SIGKILL", 2, [1], nested=True),
         sc("respawn", "exit:0", 2, [0], n_tasks1=1),
         sc("respawn", "SIGKILL", 2, [0], n_tasks1=1),
         sc("respawn", "exit", 3, [0], managed=True, n_tasks1=1),
@@ -182,6 +189,8 @@ def random_scenarios(rng, n, allow_midsend=False):
         out.append(sc(kind, how, n_jobs, victims, managed=rng.random() < 0.5, n_tasks=n_tasks,
                       pre_dispatch=(rng.choice(["all", "4*n_jobs"]) if kind == "dispatching" else None),
                       probe=(True if rng.random() < 0.2 else None),
+                      nested=(True if kind in ("mid_task", "idle_settled", "idle_unsettled", "startup_gen")
+                              and rng.random() < 0.25 else None),
                       n_tasks1=(rng.choice([1, None]) if kind == "respawn" else None),
                       sigchld=(rng.choice(["ign", "reaper"]) if rng.random() < 0.12 else None),
                       sleep=0.2 if kind == "after_send" else rng.choice([0.0, 0.02, 0.05]),
@@ -235,6 +244,7 @@ def collect(h):
            "victim_pids": next((r["victim_pids"] for r in lines if "victim_pids" in r), []),
            "noticed": next((r["noticed"] for r in lines if "noticed" in r), None),
            "probe": next((r["probe"] for r in lines if "probe" in r), None),
+           "nested": next((r for r in lines if "nested_alive" in r), None),
            "stubborn_alive": next((r["stubborn_alive"] for r in lines if "stubborn_alive" in r), None),
            "wall": round(time.time() - h["t0"], 2)}
     if not done:
@@ -596,6 +606,11 @@ def run(ctx):
         "scenario_kinds": stats["kinds"],
         "outcome_classes_per_kind": {k: [json.dumps(x) for x in v][:6] for k, v in stats["classes"].items()},
         "class_legend": "0 ok list, 1 TerminatedWorkerError, 2 BrokenProcessPool, 3 shutdown error, 5 other exception, 9 wrong list",
+        "nested_scenarios": sum(1 for s_ in scenarios if s_.get("nested")),
+        "nested_orphans_left_alive_observed": sum(len((r_.get("nested") or {}).get("nested_alive", [])) for r_ in results),
+        "nested_orphans_note": "nested loky workers of a killed worker are orphans that nobody kills (kill_process_tree only sees the "
+                               "descendants of live workers); they leave on their own idle time-out. Observation, not part of C10; "
+                               "the harness kills the whole session of every scenario",
         "hangs_seen": len(hangs), "hangs_known_midsend": midsend_hangs, "inconclusive_timeouts": inconclusive,
         "disagreements": len(disagreements),
         "injection_wall_s": round(time.time() - t0, 1),
